@@ -132,52 +132,61 @@ pub proof fn lemma_grouped_head(t: Seq<EntryV>)
 }
 
 /// step "new key": t = [x, e] + rest with x.key != e.key; x is emitted, then the outputs `out2` for t.drop_first()
-pub proof fn lemma_case_new(t: Seq<EntryV>, out2: Seq<EntryV>, out: Seq<EntryV>)
+pub proof fn lemma_case_new_from(t: Seq<EntryV>, out2: Seq<EntryV>, out: Seq<EntryV>)
+    requires t.len() >= 2, out == seq![t[0]] + out2, from_input(out2, t.drop_first()),
+    ensures from_input(out, t)
+{
+    let t2 = t.drop_first();
+    assert forall|m: int| 0 <= m < out.len() implies is_from(#[trigger] out[m], t) by {
+        if m == 0 {
+            assert(t[0] == out[0]);
+        } else {
+            assert(out[m] == out2[m - 1]);
+            assert(is_from(out2[m - 1], t2));
+            let i2 = choose|i2: int| 0 <= i2 < t2.len() && #[trigger] t2[i2] == out2[m - 1];
+            assert(t2[i2] == t[i2 + 1]);
+        }
+    }
+}
+
+pub proof fn lemma_case_new_distinct(t: Seq<EntryV>, out2: Seq<EntryV>, out: Seq<EntryV>)
     requires
         t.len() >= 2,
         forall|k: int| 1 <= k < t.len() ==> (#[trigger] t[k]).id.key != t[0].id.key,
         out == seq![t[0]] + out2,
-        from_input(out2, t.drop_first()), keys_distinct(out2), covers_max(out2, t.drop_first()),
-    ensures from_input(out, t), keys_distinct(out), covers_max(out, t)
+        from_input(out2, t.drop_first()), keys_distinct(out2),
+    ensures keys_distinct(out)
 {
     let t2 = t.drop_first();
-    assert(out[0] == t[0]);
-    assert forall|m: int| 1 <= m < out.len() implies #[trigger] out[m] == out2[m - 1] by {}
-    assert forall|i: int| 0 <= i < t2.len() implies #[trigger] t2[i] == t[i + 1] by {}
-    assert(from_input(out, t)) by {
-        assert forall|m: int| 0 <= m < out.len() implies is_from(#[trigger] out[m], t) by {
-            if m == 0 {
-                assert(t[0] == out[0]);
-            } else {
-                assert(is_from(out2[m - 1], t2));
-                let i2 = choose|i2: int| 0 <= i2 < t2.len() && #[trigger] t2[i2] == out2[m - 1];
-                assert(t[i2 + 1] == out[m]);
-            }
+    assert forall|m: int, n: int| #![trigger out[m], out[n]] 0 <= m < n < out.len() implies out[m].id.key != out[n].id.key by {
+        assert(out[n] == out2[n - 1]);
+        if m == 0 {
+            assert(out[0] == t[0]);
+            assert(is_from(out2[n - 1], t2));
+            let i2 = choose|i2: int| 0 <= i2 < t2.len() && #[trigger] t2[i2] == out2[n - 1];
+            assert(t2[i2] == t[i2 + 1]);
+            assert(t[i2 + 1].id.key != t[0].id.key);
+        } else {
+            assert(out[m] == out2[m - 1]);
         }
     }
-    assert(keys_distinct(out)) by {
-        assert forall|m: int, n: int| #![trigger out[m], out[n]] 0 <= m < n < out.len() implies out[m].id.key != out[n].id.key by {
-            if m == 0 {
-                assert(is_from(out2[n - 1], t2));
-                let i2 = choose|i2: int| 0 <= i2 < t2.len() && #[trigger] t2[i2] == out2[n - 1];
-                assert(t[i2 + 1] == out[n]);
-                assert(t[i2 + 1].id.key != t[0].id.key);
-            } else {
-                assert(out[m] == out2[m - 1] && out[n] == out2[n - 1]);
-            }
-        }
-    }
-    assert(covers_max(out, t)) by {
-        assert forall|i: int| 0 <= i < t.len() implies covered(#[trigger] t[i], out) by {
-            if i == 0 {
-                assert(dominates(out[0], t[0]));
-            } else {
-                assert(t[i] == t2[i - 1]);
-                assert(covered(t2[i - 1], out2));
-                let m2 = choose|m2: int| 0 <= m2 < out2.len() && dominates(#[trigger] out2[m2], t2[i - 1]);
-                assert(out[m2 + 1] == out2[m2]);
-                assert(dominates(out[m2 + 1], t[i]));
-            }
+}
+
+pub proof fn lemma_case_new_covers(t: Seq<EntryV>, out2: Seq<EntryV>, out: Seq<EntryV>)
+    requires t.len() >= 2, out == seq![t[0]] + out2, covers_max(out2, t.drop_first()),
+    ensures covers_max(out, t)
+{
+    let t2 = t.drop_first();
+    assert forall|i: int| 0 <= i < t.len() implies covered(#[trigger] t[i], out) by {
+        if i == 0 {
+            assert(out[0] == t[0]);
+            assert(dominates(out[0], t[0]));
+        } else {
+            assert(t[i] == t2[i - 1]);
+            assert(covered(t2[i - 1], out2));
+            let m2 = choose|m2: int| 0 <= m2 < out2.len() && dominates(#[trigger] out2[m2], t2[i - 1]);
+            assert(out[m2 + 1] == out2[m2]);
+            assert(dominates(out[m2 + 1], t[i]));
         }
     }
 }
@@ -238,7 +247,9 @@ pub proof fn lemma_feed(p: Option<EntryV>, s: Seq<EntryV>)
                     lemma_grouped_sub(t, t2, 1);
                     lemma_feed(Some(e), rest);
                     lemma_grouped_head(t);
-                    lemma_case_new(t, out2, out);
+                    lemma_case_new_from(t, out2, out);
+                    lemma_case_new_distinct(t, out2, out);
+                    lemma_case_new_covers(t, out2, out);
                 }
             }
         }
